@@ -166,7 +166,7 @@ def run_group(run, group, jobs=None):
     jobs = jobs or int(os.environ.get('VERIF_KANI_JOBS', '8'))
     timeout_s = 1500 if run.tier == 'quick' else 4 * 3600
     out, wall, timed_out = run_kani([(m, n) for (m, n, _w) in hs], jobs, timeout_s,
-                                    harness_timeout=240 if run.tier == 'quick' else 900)
+                                    harness_timeout=240 if run.tier == 'quick' else 2400)
     res = parse_terse(out)
     if 'error: could not compile' in out or 'Failed to execute cargo' in out or 'error[E' in out:
         run.inconclusive.append({'engine': 'kani', 'reason': 'harness crate does not compile against /repo',
